@@ -24,6 +24,8 @@ func plansFor(prop string, thorough bool) ([]Plan, int) {
 				SimNum: d(60, 1500), SimDepth: d(30, 60), MaxBeh: d(1500, 30000)},
 			{Name: "val-replicas", Const: "val", Kinds: []string{"vote", "seen", "checkin"}, Depth: d(4, 6), Product: "replicas", MaxBeh: d(1000, 20000)},
 			{Name: "val2-replicas", Const: "val2", Kinds: []string{"vote", "seen", "checkin"}, Depth: d(6, 9), Product: "replicas", MaxBeh: d(6000, 0)},
+			{Name: "one-mempool", Const: "one", Kinds: []string{"seen"}, Depth: d(12, 14), Product: "replicas", Mempool: true, MaxBeh: d(400, 4000)},
+			{Name: "val2-restart", Const: "val2", Kinds: []string{"vote", "seen", "checkin"}, Depth: d(5, 7), Product: "replicas", Restart: true, MaxBeh: d(1500, 20000)},
 			{Name: "tie-skew", Const: "tie", Kinds: []string{"vote", "dkgres"}, Depth: d(5, 7), Product: "replicas", Skew: true, SimNum: d(100, 1000), SimDepth: d(12, 20), MaxBeh: d(800, 8000)},
 		}, replicas
 	case "C11":
@@ -31,6 +33,7 @@ func plansFor(prop string, thorough bool) ([]Plan, int) {
 			{Name: "gov", Const: "gov", Kinds: []string{"vote", "seen", "dkgres", "replay"}, Depth: d(4, 6),
 				SimNum: d(60, 1500), SimDepth: d(40, 60), MaxBeh: d(2500, 40000)},
 			{Name: "tie", Const: "tie", Kinds: []string{"vote", "dkgres"}, Depth: d(6, 8), MaxBeh: d(1500, 30000)},
+			{Name: "rot", Const: "rot", Kinds: []string{"vote", "seen"}, Depth: d(6, 8), MaxBeh: d(0, 0)},
 		}, 1
 	case "C12":
 		return []Plan{
@@ -52,6 +55,8 @@ func plansFor(prop string, thorough bool) ([]Plan, int) {
 			{Name: "gov-c13", Const: "gov", Kinds: []string{"vote", "seen", "dkgres", "checkin", "dkgmsg"}, Depth: d(3, 4), Twins: "c13",
 				SimNum: d(150, 1500), SimDepth: d(25, 40), MaxBeh: d(600, 8000)},
 			{Name: "val-c13", Const: "val", Kinds: []string{"vote", "seen", "checkin"}, Depth: d(4, 6), Twins: "c13", MaxBeh: d(600, 8000)},
+			{Name: "val2-c13", Const: "val2", Kinds: []string{"vote", "seen", "checkin"}, Depth: d(6, 8), Twins: "c13", MaxBeh: d(800, 8000)},
+			{Name: "valdev-c13", Const: "valdev", Kinds: []string{"vote", "seen", "checkin"}, Depth: d(4, 5), Twins: "c13", SimNum: d(150, 1000), SimDepth: d(20, 30), MaxBeh: d(600, 8000)},
 		}, 1
 	}
 	return nil, 0
